@@ -3,5 +3,5 @@
 use libfuzzer_sys::fuzz_target;
 
 fuzz_target!(|data: &[u8]| {
-    fgverif::fuzzing::one_input("build", data);
+    fgverif::fuzzing::one_input("builder", data);
 });
